@@ -75,6 +75,18 @@ type Contract struct {
 	BindErr  []string
 }
 
+// Pred is a named list of clauses (a representation invariant) expanded textually where it is used.
+type Pred struct {
+	Name    string
+	Params  []string
+	Clauses []predClause
+}
+
+type predClause struct {
+	Label string
+	Src   string
+}
+
 type Program struct {
 	Fset      *token.FileSet
 	Pkg       *packages.Package
@@ -85,6 +97,7 @@ type Program struct {
 	FuncByKey map[string]*ssa.Function
 	DeclByKey map[string]*ast.FuncDecl
 	LoadErrs  []string
+	Preds     map[string]*Pred
 	typeTags  map[string]int
 	effects   map[*ssa.Function]*effectSet
 	impls     map[string][]*ssa.Function
@@ -215,7 +228,7 @@ func (p *Program) parseContractFile(fname string, f *ast.File) error {
 		}
 	}
 	// join continuation lines: a line is a continuation unless it starts with a keyword
-	kw := regexp.MustCompile(`^(func|requires|ensures|assume|modifies|tags|loop|at|inline|trusted|safety|noverify|pred)\b`)
+	kw := regexp.MustCompile(`^(func|requires|ensures|assume|modifies|tags|loop|at|inline|trusted|safety|noverify|pred|clause)\b`)
 	var joined []line
 	for _, l := range lines {
 		if kw.MatchString(l.text) || len(joined) == 0 {
@@ -225,6 +238,10 @@ func (p *Program) parseContractFile(fname string, f *ast.File) error {
 		}
 	}
 	var cur *Contract
+	var curPred *Pred
+	if p.Preds == nil {
+		p.Preds = map[string]*Pred{}
+	}
 	for _, l := range joined {
 		fields := strings.Fields(l.text)
 		head := fields[0]
@@ -233,7 +250,35 @@ func (p *Program) parseContractFile(fname string, f *ast.File) error {
 			head = head[:i]
 		}
 		bad := func(msg string) error { return fmt.Errorf("%s:%d: %s: %q", fname, l.ln, msg, l.text) }
+		if head == "pred" {
+			// pred name(a, b)
+			m := regexp.MustCompile(`^(\w+)\(([^)]*)\)$`).FindStringSubmatch(strings.TrimSpace(rest))
+			if m == nil {
+				return bad("pred name(params)")
+			}
+			curPred = &Pred{Name: m[1]}
+			for _, a := range strings.Split(m[2], ",") {
+				if a = strings.TrimSpace(a); a != "" {
+					curPred.Params = append(curPred.Params, strings.Fields(a)[0])
+				}
+			}
+			p.Preds[curPred.Name] = curPred
+			cur = nil
+			continue
+		}
+		if head == "clause" {
+			if curPred == nil {
+				return bad("clause outside pred")
+			}
+			m := regexp.MustCompile(`^clause(#[A-Za-z0-9_.\-]+)?\s+(.*)$`).FindStringSubmatch(l.text)
+			if m == nil {
+				return bad("malformed pred clause")
+			}
+			curPred.Clauses = append(curPred.Clauses, predClause{strings.TrimPrefix(m[1], "#"), m[2]})
+			continue
+		}
 		if head == "func" {
+			curPred = nil
 			key := strings.TrimSpace(rest)
 			if c, ok := p.Contracts[key]; ok {
 				cur = c
@@ -268,17 +313,19 @@ func (p *Program) parseContractFile(fname string, f *ast.File) error {
 		}
 		switch head {
 		case "requires", "ensures", "assume":
-			cl, err := mkClause(l.text)
-			if err != nil {
-				return err
-			}
-			switch head {
-			case "requires":
-				cur.Requires = append(cur.Requires, cl)
-			case "ensures":
-				cur.Ensures = append(cur.Ensures, cl)
-			case "assume":
-				cur.Assumes = append(cur.Assumes, cl)
+			for _, txt := range p.expandPred(l.text) {
+				cl, err := mkClause(txt)
+				if err != nil {
+					return err
+				}
+				switch head {
+				case "requires":
+					cur.Requires = append(cur.Requires, cl)
+				case "ensures":
+					cur.Ensures = append(cur.Ensures, cl)
+				case "assume":
+					cur.Assumes = append(cur.Assumes, cl)
+				}
 			}
 		case "modifies":
 			cur.HasMod = true
@@ -307,19 +354,21 @@ func (p *Program) parseContractFile(fname string, f *ast.File) error {
 				return bad("loop ordinal")
 			}
 			sub := strings.TrimSpace(strings.TrimPrefix(strings.TrimSpace(strings.TrimPrefix(rest, fields[1])), ""))
-			cl, err := mkClause(sub)
-			if err != nil {
-				return err
-			}
 			ls := cur.Loops[n]
 			if ls == nil {
 				ls = &LoopSpec{Ordinal: n}
 				cur.Loops[n] = ls
 			}
-			if cl.Kind == "decreases" {
-				ls.Decreases = cl
-			} else {
-				ls.Invariants = append(ls.Invariants, cl)
+			for _, txt := range p.expandPred(sub) {
+				cl, err := mkClause(txt)
+				if err != nil {
+					return err
+				}
+				if cl.Kind == "decreases" {
+					ls.Decreases = cl
+				} else {
+					ls.Invariants = append(ls.Invariants, cl)
+				}
 			}
 		case "at":
 			// at call <callee> assert#label expr
@@ -338,6 +387,39 @@ func (p *Program) parseContractFile(fname string, f *ast.File) error {
 		}
 	}
 	return nil
+}
+
+var predUseRe = regexp.MustCompile(`^(requires|ensures|assume|invariant)(#[A-Za-z0-9_.\-]+)?(\{[A-Z0-9, ]+\})?\s+(\w+)\((.*)\)$`)
+
+// expandPred expands "requires pred(args)" into one clause per pred clause (textual substitution of whole identifiers).
+func (p *Program) expandPred(text string) []string {
+	m := predUseRe.FindStringSubmatch(strings.TrimSpace(text))
+	if m == nil {
+		return []string{text}
+	}
+	pr := p.Preds[m[4]]
+	if pr == nil {
+		return []string{text}
+	}
+	args := splitTop(m[5], ',')
+	if len(args) != len(pr.Params) {
+		return []string{text}
+	}
+	var out []string
+	for _, c := range pr.Clauses {
+		body := c.Src
+		for i, prm := range pr.Params {
+			re := regexp.MustCompile(`\b` + regexp.QuoteMeta(prm) + `\b`)
+			body = re.ReplaceAllString(body, "("+strings.TrimSpace(args[i])+")")
+		}
+		label := strings.TrimPrefix(m[2], "#")
+		if label != "" {
+			label += "."
+		}
+		label += pr.Name + "." + c.Label
+		out = append(out, m[1]+"#"+label+m[3]+" "+body)
+	}
+	return out
 }
 
 func splitTop(s string, sep byte) []string {
